@@ -1,6 +1,8 @@
 package main
 
 import (
+	"bytes"
+	"encoding/xml"
 	"fmt"
 	"os"
 	"time"
@@ -88,6 +90,81 @@ func c14new(kind string, par bool, n int, msg bool) satisfier {
 	return logic.NewThrowEventSatisfier(&te, event.WrappingDefinitionInstanceBuilder)
 }
 
+func c14expr(text string) *schema.AnExpression {
+	e := schema.AnExpression{}
+	if err := xml.NewDecoder(bytes.NewBufferString(fmt.Sprintf(`<bpmn:expression>%s</bpmn:expression>`, text))).Decode(&e); err != nil {
+		panic(err)
+	}
+	return &e
+}
+
+// c14newMixed: a catch / throw event whose n definitions are of DIFFERENT kinds — signal, one-shot timer (timeDuration),
+// message, recurring timer (timeCycle), again and again — and the function that makes the event matching definition i (by
+// position in the satisfier's own instance list): a timer definition is matched by the timer event of ITS instance.
+func c14newMixed(kind string, par bool, n int) (satisfier, func(i int) event.IEvent) {
+	var sigs []schema.SignalEventDefinition
+	var msgs []schema.MessageEventDefinition
+	var tims []schema.TimerEventDefinition
+	for k := 0; k < n; k++ {
+		switch k % 4 {
+		case 0:
+			d := schema.DefaultSignalEventDefinition()
+			name := schema.QName(fmt.Sprintf("sig%d", k))
+			d.SetSignalRef(&name)
+			sigs = append(sigs, d)
+		case 2:
+			d := schema.DefaultMessageEventDefinition()
+			name := schema.QName(fmt.Sprintf("m%d", k))
+			d.SetMessageRef(&name)
+			msgs = append(msgs, d)
+		default:
+			d := schema.DefaultTimerEventDefinition()
+			if k%4 == 1 {
+				d.SetTimeDuration(c14expr("PT10S"))
+			} else {
+				d.SetTimeCycle(c14expr("R3/PT10S"))
+			}
+			tims = append(tims, d)
+		}
+	}
+	var s satisfier
+	var insts *[]event.IDefinitionInstance
+	if kind == "catch" {
+		ce := schema.DefaultCatchEvent()
+		p := par
+		ce.SetParallelMultiple(&p)
+		ce.SetSignalEventDefinitions(sigs)
+		ce.SetMessageEventDefinitions(msgs)
+		ce.SetTimerEventDefinitions(tims)
+		cs := logic.NewCatchEventSatisfier(&ce, event.WrappingDefinitionInstanceBuilder)
+		s, insts = cs, cs.EventDefinitionInstances()
+	} else {
+		te := schema.DefaultThrowEvent()
+		te.SetSignalEventDefinitions(sigs)
+		te.SetMessageEventDefinitions(msgs)
+		te.SetTimerEventDefinitions(tims)
+		ts := logic.NewThrowEventSatisfier(&te, event.WrappingDefinitionInstanceBuilder)
+		s, insts = ts, ts.EventDefinitionInstances()
+	}
+	mk := func(i int) event.IEvent {
+		if i < 0 || i >= len(*insts) {
+			return event.NewSignalEvent("nomatch")
+		}
+		inst := (*insts)[i]
+		switch d := inst.EventDefinition().(type) {
+		case *schema.SignalEventDefinition:
+			r, _ := d.SignalRef()
+			return event.NewSignalEvent(string(*r))
+		case *schema.MessageEventDefinition:
+			r, _ := d.MessageRef()
+			return event.NewMessageEvent(string(*r), nil)
+		default:
+			return event.MakeTimerEvent(inst)
+		}
+	}
+	return s, mk
+}
+
 var c14seq int
 
 // one case: a fresh satisfier and a history; idx -1 = an event matching no definition
@@ -99,7 +176,18 @@ func c14case(out *rec.Out, kind string, par bool, n int, hist []int, stats map[s
 	if msg {
 		stats["cases_with_message_definitions"]++
 	}
-	s := c14new(kind, par, n, msg)
+	// a sixth of the cases with two or more definitions MIX the kinds of their definitions (signal, one-shot timer, message,
+	// recurring timer): a definition is a definition, whatever its kind
+	mixed := n >= 2 && c14seq%6 == 1
+	var mkMixed func(i int) event.IEvent
+	var s satisfier
+	if mixed {
+		stats["cases_with_mixed_definition_kinds"]++
+		s, mkMixed = c14newMixed(kind, par, n)
+		msg = false
+	} else {
+		s = c14new(kind, par, n, msg)
+	}
 	// half of the cases hand in ONE event object per signal, again and again (a sender that keeps its event value): two
 	// occurrences are two occurrences, whether or not they are the same Go value
 	c14seq++
@@ -114,7 +202,9 @@ func c14case(out *rec.Out, kind string, par bool, n int, hist []int, stats map[s
 			name = fmt.Sprintf("sig%d", i)
 		}
 		var ev event.IEvent
-		if msg {
+		if mixed {
+			ev = mkMixed(i)
+		} else if msg {
 			ev = c14msgEvent(i, pos%n)
 		} else {
 			sev := event.NewSignalEvent(name)
